@@ -318,7 +318,8 @@ class Sim:
             if t.state not in ("running", "created") or t is by_task:
                 continue
             if t.obj != i and self.kind(i) != "ephem" and self.kind(t.obj) != "ephem":
-                if self.pool[t.obj].propagator is self.pool[i].propagator:
+                declared = self.specs[t.obj].get("share") == i or self.specs[i].get("share") == t.obj or (self.specs[t.obj].get("share") is not None and self.specs[t.obj].get("share") == self.specs[i].get("share"))
+                if self.pool[t.obj].propagator is self.pool[i].propagator and declared:  # (sharing declared by the plan: the open known finding)
                     if not t.rebound:
                         self.ctx.probe("shared_propagator_interleaved")
                     t.rebound = True
